@@ -343,14 +343,17 @@ def make_enforcer(rules, dflt=None, registered=(), enforce_scope=True, via='rule
         pdir = os.path.join(d, 'policy.d')
         os.makedirs(pdir)
         with open(main if via == 'main_file' else os.path.join(pdir, 'rules.json'), 'w') as f:
-            _json.dump(rules, f)
+            if rules:
+                _json.dump(rules, f)
+            else:
+                # an empty rule set is also a file with nothing but a comment, a bare document marker, or nothing
+                f.write(['{}', '# no overrides\n', '---\n', '', '#\n\n'][len(repr(dflt)) % 5])
         e = policy.Enforcer(conf, policy_file=main, **kw)
         conf.set_override('policy_dirs', [pdir], group='oslo_policy')
         conf.set_override('enforce_scope', bool(enforce_scope), group='oslo_policy')
         for name, scopes, text in registered:
             e.register_default(policy.RuleDefault(name, text, scope_types=scopes or None))
-        e.load_rules()
-        return e
+        return e            # (the first enforcement call loads the rules: whatever happens then is an observation)
     if via == 'ctor':
         kw['rules'] = {n: _parser.parse_rule(t) for n, t in rules.items()}
     elif via == 'ctor_own_default':
